@@ -72,6 +72,25 @@ struct Jail {
     abs_escape: String,
 }
 
+/// Where the jails live: a memory file system when there is one (tens of thousands of small directory trees are
+/// created and removed per run; on the sandbox's disk the kernel serialises them on the journal and the 16 worker
+/// threads queue up in mkdir / open), the harness's own scratch directory otherwise. Scratch only, removed at exit.
+fn jail_base() -> std::path::PathBuf {
+    static DIR: std::sync::OnceLock<std::path::PathBuf> = std::sync::OnceLock::new();
+    DIR.get_or_init(|| {
+        let shm = std::path::Path::new("/dev/shm");
+        if std::env::var("VERIF_C05_ON_DISK").is_err() && shm.is_dir() {
+            let d = shm.join("vh-c05");
+            if std::fs::create_dir_all(&d).is_ok() && std::fs::write(d.join(format!(".probe-{}", std::process::id())), b"x").is_ok() {
+                let _ = std::fs::remove_file(d.join(format!(".probe-{}", std::process::id())));
+                return d;
+            }
+        }
+        vh::session::sandbox_dir()
+    })
+    .clone()
+}
+
 fn empty_chain_of(tag: &str) -> bool {
     util::fnv(&format!("chain|{}", tag)) % 2 == 0
 }
@@ -79,7 +98,7 @@ fn empty_chain_of(tag: &str) -> bool {
 fn make_jail(tag: &str) -> Jail {
     // spread the jails over buckets: one shared parent directory serialises all threads
     let bucket = util::fnv(tag) % 256;
-    let jail = sandbox_dir().join(format!("c05-{}", std::process::id())).join(format!("b{}", bucket)).join(format!("c05-{}-{}", std::process::id(), tag));
+    let jail = jail_base().join(format!("c05-{}", std::process::id())).join(format!("b{}", bucket)).join(format!("c05-{}-{}", std::process::id(), tag));
     let _ = std::fs::remove_dir_all(&jail);
     let root = jail.join("r1").join("r2").join("r3");
     // every other jail: the destination directory is EMPTY and sits in a directory that holds nothing else
@@ -296,7 +315,7 @@ fn judge_location(tag: &str, location_of: &dyn Fn(&Jail, &str) -> String, cr: &m
 fn strace_batch(ctx: &Ctx, batch: usize, n: usize) -> CaseResult {
     let mut cr = CaseResult::default();
     let exe = std::env::current_exe().unwrap();
-    let log = sandbox_dir().join(format!("c05-strace-{}-{}.log", std::process::id(), batch));
+    let log = jail_base().join(format!("c05-strace-{}-{}.log", std::process::id(), batch));
     let st = std::process::Command::new("strace")
         .args(["-f", "-qq", "-e", "trace=openat,open,creat,mkdir,mkdirat,unlink,unlinkat,rename,renameat,renameat2,rmdir,truncate,access,faccessat,faccessat2,chdir", "-o"])
         .arg(&log)
@@ -464,7 +483,7 @@ fn strace_child(args: &[String]) -> ! {
         }
         let _ = std::fs::remove_dir_all(&j.jail);
     }
-    let _ = std::fs::remove_dir_all(sandbox_dir().join(format!("c05-{}", std::process::id())));
+    let _ = std::fs::remove_dir_all(jail_base().join(format!("c05-{}", std::process::id())));
     std::process::exit(0);
 }
 
@@ -474,15 +493,17 @@ fn main() {
         strace_child(&args);
     }
     // remove what earlier (possibly killed) runs left behind, and our own jails at exit
-    if let Ok(rd) = std::fs::read_dir(sandbox_dir()) {
+    // (only what is older than three hours: another C05 run may be at work next to this one)
+    if let Ok(rd) = std::fs::read_dir(jail_base()) {
         for e in rd.flatten() {
-            if e.file_name().to_string_lossy().starts_with("c05-") {
+            let old = e.metadata().ok().and_then(|m| m.modified().ok()).and_then(|t| t.elapsed().ok()).map(|d| d.as_secs() > 3 * 3600).unwrap_or(false);
+            if old && e.file_name().to_string_lossy().starts_with("c05-") {
                 let _ = std::fs::remove_dir_all(e.path());
             }
         }
     }
     extern "C" fn at_exit() {
-        let _ = std::fs::remove_dir_all(sandbox_dir().join(format!("c05-{}", std::process::id())));
+        let _ = std::fs::remove_dir_all(jail_base().join(format!("c05-{}", std::process::id())));
     }
     unsafe {
         libc::atexit(at_exit);
